@@ -63,18 +63,24 @@ Theorem C06_identical_axes : forall axs a a',
 Proof. exact align_one_labels. Qed.
 Print Assumptions C06_identical_axes.
 
-(* the direction clause: two different, non-empty, monotonic axes of consistent kinds that slope the same way are
-   merged into the sorted union - strictly increasing when they increase, strictly decreasing when they decrease *)
+(* the direction clause: two different, non-empty, monotonic axes of consistent kinds that slope the same way - an
+   axis of one label has no direction and follows the other - are merged into the sorted union: strictly increasing
+   when they increase, strictly decreasing when they decrease *)
 Theorem C06_direction : forall a b,
   snd (merge_kind (akind a) (akind b)) = true ->
   labels_eqb (alab a) (alab b) = false -> alen a <> 0 -> alen b <> 0 ->
   is_monotonic_labels (alab a) = true -> is_monotonic_labels (alab b) = true ->
-  slope_up (alab a) = slope_up (alab b) ->
+  same_slope (alab a) (alab b) = true ->
   let r := alab (axis_union a b) in
-  let down := label_le (last (alab a) LNone) (hd LNone (alab a)) in
+  let down := slopes_down (alab a) (alab b) in
   (down = false -> r = union1d (alab a) (alab b) /\ strictly label_ltb r = true) /\
   (down = true -> r = rev (union1d (alab a) (alab b)) /\ strictly (fun x y => label_ltb y x) r = true).
 Proof. exact axis_union_direction. Qed.
+(* a one-label axis joins an increasing axis increasing, a decreasing one decreasing *)
+Example C06_direction_single :
+  alab (axis_union (ax_new "x" KI [L_ 5] []) (ax_new "x" KI [L_ 1; L_ 2; L_ 3] [])) = [L_ 1; L_ 2; L_ 3; L_ 5] /\
+  alab (axis_union (ax_new "x" KI [L_ 3; L_ 2; L_ 1] []) (ax_new "x" KI [L_ 5] [])) = [L_ 5; L_ 3; L_ 2; L_ 1].
+Proof. split; vm_compute; reflexivity. Qed.
 Print Assumptions C06_direction.
 (* sort=True: the common axis comes out in ascending label order, as a rearrangement of its labels *)
 Theorem C06_sort_ascending : forall ax,
